@@ -62,10 +62,10 @@ theorem contribL_specAll (cs : List ANode) (h : ANode.tokensAreLeavesL cs = true
 /-- The child converters carry what each child prescribes, for children that satisfy `Q`
 (the induction hypothesis of the knot: `Q` = "is in the covered fragment"). -/
 structure RecOK (r : Rec) (Q : ANode → Prop) : Prop where
-  expr : ∀ ctx c, isExpr c = true → Q c → Post (r.expr ctx c) (fun d => Carries d (specAll c))
-  pattern : ∀ ctx c, isPattern c = true → Q c → Post (r.pattern ctx c) (fun d => Carries d (specAll c))
-  paren : ∀ ctx c, c.kind = .parenthesized → c.attrs.disabled = false → Q c → Post (r.paren ctx c) (fun d => Carries d (specAll c))
-  markup : ∀ ctx c scope, c.kind = .markup → Q c → Post (r.markup ctx c scope) (fun d => Carries d (specAll c))
+  expr : ∀ ctx c, NM ctx → isExpr c = true → Q c → Post (r.expr ctx c) (fun d => Carries d (specAll c))
+  pattern : ∀ ctx c, NM ctx → isPattern c = true → Q c → Post (r.pattern ctx c) (fun d => Carries d (specAll c))
+  paren : ∀ ctx c, NM ctx → c.kind = .parenthesized → c.attrs.disabled = false → Q c → Post (r.paren ctx c) (fun d => Carries d (specAll c))
+  markup : ∀ ctx c scope, NM ctx → c.kind = .markup → Q c → Post (r.markup ctx c scope) (fun d => Carries d (specAll c))
 
 /-- What a construct may assume of a child: lexical shape, and — if it is an expression or pattern —
 that it satisfies `Q`. -/
@@ -108,7 +108,7 @@ theorem specAll_semicolon (c : ANode) (h : ANode.tokensAreLeaves c = true) (hk :
 
 theorem namedProducer_ok {Q : ANode → Prop} (e : Env) (r : Rec) (hr : RecOK r Q) :
     ProducerS (namedProducer e r) specAll (ChildOK Q) := by
-  intro st c child hok
+  intro st c child hnm hok
   unfold namedProducer
   split
   · rename_i hk
@@ -116,10 +116,10 @@ theorem namedProducer_ok {Q : ANode → Prop} (e : Env) (r : Rec) (hr : RecOK r 
     exact Post.bind (synLeaf_carries e child ":" hok.1 (by rw [hk']; rfl)) (fun d hd => Post.pure hd)
   · split
     · rename_i hx
-      exact Post.bind (hr.expr c child hx hok.2) (fun d hd => Post.pure hd)
+      exact Post.bind (hr.expr c child hnm hx hok.2) (fun d hd => Post.pure hd)
     · split
       · rename_i hx
-        exact Post.bind (hr.pattern c child hx hok.2) (fun d hd => Post.pure hd)
+        exact Post.bind (hr.pattern c child hnm hx hok.2) (fun d hd => Post.pure hd)
       · split
         · rename_i hk
           exact Post.pure (specAll_space child hok.1 (by simpa using hk))
@@ -131,7 +131,7 @@ theorem namedProducer_ok {Q : ANode → Prop} (e : Env) (r : Rec) (hr : RecOK r 
 
 theorem keyedProducer_ok {Q : ANode → Prop} (e : Env) (r : Rec) (hr : RecOK r Q) :
     ProducerS (keyedProducer e r) specAll (ChildOK Q) := by
-  intro st c child hok
+  intro st c child hnm hok
   unfold keyedProducer
   split
   · rename_i hk
@@ -139,7 +139,7 @@ theorem keyedProducer_ok {Q : ANode → Prop} (e : Env) (r : Rec) (hr : RecOK r 
     exact Post.bind (synLeaf_carries e child ":" hok.1 (by rw [hk']; rfl)) (fun d hd => Post.pure hd)
   · split
     · rename_i hx
-      exact Post.bind (hr.expr c child hx hok.2) (fun d hd => Post.pure hd)
+      exact Post.bind (hr.expr c child hnm hx hok.2) (fun d hd => Post.pure hd)
     · split
       · rename_i hk
         exact Post.pure (specAll_space child hok.1 (by simpa using hk))
@@ -150,7 +150,7 @@ theorem keyedProducer_ok {Q : ANode → Prop} (e : Env) (r : Rec) (hr : RecOK r 
 
 theorem spreadProducer_ok {Q : ANode → Prop} (e : Env) (r : Rec) (hr : RecOK r Q) :
     ProducerS (spreadProducer e r) specAll (ChildOK Q) := by
-  intro st c child hok
+  intro st c child hnm hok
   unfold spreadProducer
   split
   · rename_i hk
@@ -158,7 +158,7 @@ theorem spreadProducer_ok {Q : ANode → Prop} (e : Env) (r : Rec) (hr : RecOK r
     exact Post.bind (synLeaf_carries e child ".." hok.1 (by rw [hk']; rfl)) (fun d hd => Post.pure hd)
   · split
     · rename_i hx
-      exact Post.bind (hr.expr c child hx hok.2) (fun d hd => Post.pure hd)
+      exact Post.bind (hr.expr c child hnm hx hok.2) (fun d hd => Post.pure hd)
     · split
       · rename_i hk
         exact Post.pure (specAll_space child hok.1 (by simpa using hk))
@@ -169,7 +169,7 @@ theorem spreadProducer_ok {Q : ANode → Prop} (e : Env) (r : Rec) (hr : RecOK r
 
 theorem unaryProducer_ok {Q : ANode → Prop} (e : Env) (r : Rec) (hr : RecOK r Q) (isOpKw : Bool) :
     ProducerS (unaryProducer e r isOpKw) specAll (ChildOK Q) := by
-  intro st c child hok
+  intro st c child hnm hok
   unfold unaryProducer
   split
   · rename_i hk
@@ -179,8 +179,8 @@ theorem unaryProducer_ok {Q : ANode → Prop} (e : Env) (r : Rec) (hr : RecOK r 
   · split
     · rename_i hx
       split
-      · exact Post.bind (hr.expr c child hx hok.2) (fun d hd => Post.pure hd)
-      · exact Post.bind (hr.expr c child hx hok.2) (fun d hd => Post.pure hd)
+      · exact Post.bind (hr.expr c child hnm hx hok.2) (fun d hd => Post.pure hd)
+      · exact Post.bind (hr.expr c child hnm hx hok.2) (fun d hd => Post.pure hd)
     · split
       · rename_i hk
         exact Post.pure (specAll_space child hok.1 (by simpa using hk))
@@ -188,7 +188,7 @@ theorem unaryProducer_ok {Q : ANode → Prop} (e : Env) (r : Rec) (hr : RecOK r 
 
 theorem letProducer_ok {Q : ANode → Prop} (e : Env) (r : Rec) (hr : RecOK r Q) :
     ProducerS (letProducer e r) specAll (ChildOK Q) := by
-  intro st c child hok
+  intro st c child hnm hok
   unfold letProducer
   split
   · rename_i hk
@@ -196,7 +196,7 @@ theorem letProducer_ok {Q : ANode → Prop} (e : Env) (r : Rec) (hr : RecOK r Q)
     exact Post.bind (synLeaf_carries e child "=" hok.1 (by rw [hk']; rfl)) (fun d hd => Post.pure hd)
   · split
     · rename_i hx
-      exact Post.bind (hr.pattern c child hx hok.2) (fun d hd => Post.pure hd)
+      exact Post.bind (hr.pattern c child hnm hx hok.2) (fun d hd => Post.pure hd)
     · split
       · rename_i hk
         exact Post.pure (specAll_space child hok.1 (by simpa using hk))
@@ -204,11 +204,11 @@ theorem letProducer_ok {Q : ANode → Prop} (e : Env) (r : Rec) (hr : RecOK r Q)
 
 theorem exprFlowProducer_ok {Q : ANode → Prop} (r : Rec) (hr : RecOK r Q) (what : String) :
     ProducerS (exprFlowProducer r what) specAll (ChildOK Q) := by
-  intro st c child hok
+  intro st c child hnm hok
   unfold exprFlowProducer
   split
   · rename_i hx
-    exact Post.bind (hr.expr c child hx hok.2) (fun d hd => Post.pure hd)
+    exact Post.bind (hr.expr c child hnm hx hok.2) (fun d hd => Post.pure hd)
   · split
     · rename_i hk
       exact Post.pure (specAll_space child hok.1 (by simpa using hk))
@@ -216,7 +216,7 @@ theorem exprFlowProducer_ok {Q : ANode → Prop} (r : Rec) (hr : RecOK r Q) (wha
 
 theorem showProducer_ok {Q : ANode → Prop} (e : Env) (r : Rec) (hr : RecOK r Q) :
     ProducerS (showProducer e r) specAll (ChildOK Q) := by
-  intro st c child hok
+  intro st c child hnm hok
   unfold showProducer
   split
   · rename_i hk
@@ -224,7 +224,7 @@ theorem showProducer_ok {Q : ANode → Prop} (e : Env) (r : Rec) (hr : RecOK r Q
     exact Post.bind (synLeaf_carries e child ":" hok.1 (by rw [hk']; rfl)) (fun d hd => Post.pure hd)
   · split
     · rename_i hx
-      exact Post.bind (hr.expr c child hx hok.2) (fun d hd => Post.pure hd)
+      exact Post.bind (hr.expr c child hnm hx hok.2) (fun d hd => Post.pure hd)
     · split
       · rename_i hk
         exact Post.pure (specAll_space child hok.1 (by simpa using hk))
@@ -237,22 +237,22 @@ theorem flow_construct_carries {σ : Type} {Q : ANode → Prop} (e : Env) (ctx :
     (producer : σ → Ctx → ANode → M (σ × Option FlowItem))
     (hp : ProducerS producer specAll (ChildOK Q))
     (hv : isVerbatimNode k cs a = false) (hraw : k ≠ .raw)
-    (hw : ANode.tokensAreLeavesL cs = true) (hq : ∀ c ∈ cs, Q c) :
+    (hw : ANode.tokensAreLeavesL cs = true) (hq : ∀ c ∈ cs, Q c) (hctx : NM ctx) :
     Post (flowM e ctx cs st producer) (fun d => Carries d (specAll (.inner k cs a))) := by
   rw [specAll_inner k cs a hv hraw, ← contribL_specAll cs hw]
-  exact flowM_carries (commentOK e) hp (fun c hok hk => specAll_space c hok.1 hk) cs
+  exact flowM_carries (commentOK e) hp (fun c hok hk => specAll_space c hok.1 hk) hctx cs
     (fun c hc => ⟨tokensAreLeavesL_mem hw hc, hq c hc⟩) st
 
 theorem headingProducer_ok {Q : ANode → Prop} (e : Env) (r : Rec) (hr : RecOK r Q) :
     ProducerS (headingProducer e r) specAll (ChildOK Q) := by
-  intro st c child hok
+  intro st c child hnm hok
   unfold headingProducer
   split
   · rename_i hk
     exact Post.pure (tok_carries e child hok.1 (by rw [show child.kind = .headingMarker by simpa using hk]; rfl))
   · split
     · rename_i hk
-      exact Post.bind (hr.markup c child .item (by simpa using hk) hok.2) (fun d hd => Post.pure hd)
+      exact Post.bind (hr.markup c child .item hnm (by simpa using hk) hok.2) (fun d hd => Post.pure hd)
     · split
       · rename_i hk
         exact Post.pure (specAll_space child hok.1 (by simpa using hk))
@@ -265,7 +265,7 @@ theorem specAll_parbreak (c : ANode) (h : ANode.tokensAreLeaves c = true) (hk : 
 
 theorem listItemProducer_ok {Q : ANode → Prop} (e : Env) (r : Rec) (hr : RecOK r Q) :
     ProducerS (listItemProducer e r) specAll (fun c => ChildOK Q c ∧ (c.kind = .markup → c.children.isEmpty = true → specAll c = {})) := by
-  intro st c child hok
+  intro st c child hnm hok
   unfold listItemProducer
   split
   · rename_i hk; exact Post.pure (tok_carries e child hok.1.1 (by rw [hk]; rfl))
@@ -280,7 +280,7 @@ theorem listItemProducer_ok {Q : ANode → Prop} (e : Env) (r : Rec) (hr : RecOK
     exact Post.pure (by rw [specAll_parbreak child hok.1.1 hk]; exact Carries.repeatN Carries.hardline _)
   · rename_i hk
     split
-    · exact Post.bind (hr.markup c child .item hk hok.1.2) (fun d hd => Post.pure hd)
+    · exact Post.bind (hr.markup c child .item hnm hk hok.1.2) (fun d hd => Post.pure hd)
     · rename_i he
       exact Post.pure (hok.2 hk (by simpa using he))
   · exact Post.rejected _
